@@ -72,7 +72,8 @@ def run_c10(tier):
                        'for each capacity, plus seeded random histories; non-trivial = push onto a full queue or with text, pop/query of an entry with text or of the empty queue, clear with live texts')
     rep.assumptions += ['allocation ownership is observed through wrapped strndup/free (link-time --wrap) and LeakSanitizer/ASan',
                         'an empty device-dependent text may or may not be stored / shown (not decided by the statement)']
-    lib.tlaps(rep, 'ScpiErrQueueProofs', ['ScpiErrQueueCore'], ['PushQLen (every capacity >= 1)', 'QSpec => PopIsOldest'])
+    if tier == 'thorough':
+      lib.tlaps(rep, 'ScpiErrQueueProofs', ['ScpiErrQueueCore'], ['PushQLen (every capacity >= 1)', 'QSpec => PopIsOldest'])
     w = lib.workdir('C10')
     caps_mc = [1, 2, 3]
     for c in caps_mc:
